@@ -47,17 +47,24 @@ def gaussian(pos, centre, mass, nu, t, dim):
     return mass / (4 * np.pi * nu * t) ** (dim / 2) * np.exp(-r2 / (4 * nu * t))
 
 
-def run_one(kind, n, centre, strength, nu, direction, dtype):
+def run_one(kind, n, centre, strength, nu, direction, dtype, aspect="square"):
     real_t = np.dtype(dtype).type
     dim = simcfg.dim_of(kind)
     shape = (n,) * dim
-    cfg = dict(kind=kind, shape=shape, dtype=dtype, x_range=1.0, params=[1e-2, nu, 1.0], stream=(kind == "ns2d"), forcing=False, width=2)
+    x_range = 1.0
+    if aspect == "wide":  # more cells along x (last axis); dx stays 1 / n
+        shape = shape[:-1] + (3 * n // 2,)
+        x_range = 1.5
+    elif aspect == "tall":  # more cells along the first axis
+        shape = (3 * n // 2,) + shape[1:]
+    cfg = dict(kind=kind, shape=shape, dtype=dtype, x_range=x_range, params=[1e-2, nu, 1.0], stream=(kind == "ns2d"), forcing=False, width=2)
     sim = simcfg.make_sim(cfg)
     U = np.array(direction[:dim], dtype=np.float64) * 0.4
     t0 = CORE**2 / (4 * nu)
     T = 0.15
     pos = sim.position_field.astype(np.float64)
-    c0 = np.array(centre[:dim])
+    extent = np.array([x_range * shape[dim - 1 - k] / shape[-1] for k in range(dim)])  # domain length per axis (x, y, z)
+    c0 = np.array(centre[:dim]) * extent
     if kind == "ns2d":
         gamma = strength * 0.2
         sim.vorticity_field[...] = lamb_oseen(pos, c0, gamma, nu, t0).astype(real_t)
@@ -90,20 +97,30 @@ def run_one(kind, n, centre, strength, nu, direction, dtype):
     dx = float(sim.dx)
     err = float(np.sqrt(np.sum((got - exact) ** 2) * dx**dim))
     norm = float(np.sqrt(np.sum(exact**2) * dx**dim))
-    return err / norm, steps, bool(np.all(np.isfinite(got)))
+    err_u = 0.0
+    if kind == "ns2d":
+        # the velocity is part of the Navier-Stokes solution: induced velocity of the vortex + free stream
+        inner = (slice(None), slice(4, -4), slice(4, -4))
+        u_exact = lamb_oseen_velocity(pos, c1, gamma, nu, t0 + T) + U.reshape(2, 1, 1)
+        du = (sim.velocity_field.astype(np.float64) - u_exact)[inner]
+        ref = (u_exact - U.reshape(2, 1, 1))[inner]
+        err_u = float(np.sqrt(np.sum(du**2) / np.sum(ref**2)))
+    return err / norm, steps, bool(np.all(np.isfinite(got))), err_u
 
 
-def case_family(kind, resolutions, centre, strength, nu, direction, dtype):
+def case_family(kind, resolutions, centre, strength, nu, direction, dtype, aspect="square"):
     fails = []
     errs = []
+    errs_u = []
     for n in resolutions:
-        e, steps, finite = run_one(kind, n, centre, strength, nu, direction, dtype)
+        e, steps, finite, eu = run_one(kind, n, centre, strength, nu, direction, dtype, aspect)
         errs.append(e)
+        errs_u.append(eu)
         if not finite:
             fails.append(Fail(f"{kind}:nonfinite", "simulation produced non-finite values", n=n))
     key = f"{kind}|{dtype}"
     bounds = json.loads(BOUNDS_FILE.read_text()) if BOUNDS_FILE.exists() else {}
-    ctx = dict(kind=kind, resolutions=list(resolutions), centre=centre, strength=strength, nu=nu, direction=direction, dtype=dtype, errors=errs)
+    ctx = dict(kind=kind, resolutions=list(resolutions), centre=centre, strength=strength, nu=nu, direction=direction, dtype=dtype, errors=errs, aspect=aspect, velocity_errors=errs_u)
     orders = []
     # (1) every refinement reduces the error; (2) every doubling of the resolution reduces it at order >= 0.5
     # (successive pairs are NOT required to show order 1: spatial (third-order, dissipative) and temporal
@@ -124,12 +141,17 @@ def case_family(kind, resolutions, centre, strength, nu, direction, dtype):
     if not overall >= 1 - 0.15:
         fails.append(Fail(f"{kind}:order", "L2 error does not decrease at first order under refinement (coarsest to finest grid of the ladder)", observed_order=overall, **ctx))
     orders.append(overall)
-    for n, e in zip(resolutions, errs):
+    for n, e, eu in zip(resolutions, errs, errs_u):
         b = bounds.get(f"{key}|{n}")
         if b is not None and not e <= b:
             fails.append(Fail(f"{kind}:error-bound", "relative L2 error exceeds the calibrated bound", n=n, error=e, bound=b, **ctx))
-    return CaseResult(fails=fails, states=len(resolutions), transitions=len(resolutions), traces=len(resolutions), outcome=f"{kind}:{dtype}:{centre}:{nu}:{[round(o, 2) for o in orders]}",
-                      extra={"errors": errs, "orders": orders, "resolutions": list(resolutions)})
+        bu = bounds.get(f"{key}|{n}|velocity")
+        if kind == "ns2d" and bu is not None and not eu <= bu:
+            fails.append(Fail(f"{kind}:velocity-error-bound", "relative L2 error of the velocity field exceeds the calibrated bound", n=n, error=eu, bound=bu, **ctx))
+    if kind == "ns2d" and len(errs_u) > 1 and not errs_u[-1] < errs_u[0]:
+        fails.append(Fail(f"{kind}:velocity-not-decreasing", "velocity error does not decrease from the coarsest to the finest grid", **ctx))
+    return CaseResult(fails=fails, states=len(resolutions), transitions=len(resolutions), traces=len(resolutions), outcome=f"{kind}:{dtype}:{centre}:{nu}:{aspect}:{[round(o, 2) for o in orders]}",
+                      extra={"errors": errs, "velocity_errors": errs_u, "orders": orders, "resolutions": list(resolutions), "aspect": aspect})
 
 
 CASES = {"family": case_family}
@@ -148,6 +170,12 @@ def families(tier):
     for kind in ("ns2d", "pt2d", "pt3ds"):
         for c, s, nu, d, dt in itertools.product(centres, strengths, nus, dirs, dts):
             out.append(dict(kind=kind, resolutions=res[kind], centre=c, strength=s, nu=nu, direction=d, dtype=dt))
+    # non-square / non-cubic grids (dx unchanged, 3/2 as many cells along one axis), strong and weak vortex
+    for kind in ("ns2d", "pt2d", "pt3ds"):
+        for aspect in ("wide", "tall"):
+            for s in ((1.0, 10.0) if kind == "ns2d" else (1.0,)):
+                for dt in dts:
+                    out.append(dict(kind=kind, resolutions=res[kind][:2] if quick else res[kind][:3], centre=centres[0], strength=s, nu=nus[0], direction=dirs[0], dtype=dt, aspect=aspect))
     return out
 
 
